@@ -442,7 +442,7 @@ func runC03(r *mon.Run) {
 				// encoders hand out fresh slices
 				e1 := lp.CompressedBytes()
 				for j := range e1 {
-					e1[j] ^= 0x55
+					e1[j] += 0x55
 				}
 				if !bytes.Equal(lp.CompressedBytes(), oracle.EncodeCompressed(P.P)) {
 					w.Fail("c03/encode:alias", "mutating the slice returned by CompressedBytes changed the point")
